@@ -46,6 +46,7 @@ type Ctx struct {
 }
 
 func NewCtx(p *Prog, prop, tier string) *Ctx {
+	activeProg = p
 	return &Ctx{P: p, Prop: prop, Tier: tier, fnSeen: map[string]bool{}, Assumed: map[string]bool{}, Excluded: map[string]bool{}}
 }
 
